@@ -308,6 +308,25 @@ func init() {
 	reg("hash/maphash.runtime_rand", func(fr *frame, args []value) value { return uint64(4) })
 	reg("internal/runtime/atomic.Load", atomicLoad)
 
+	// ---- the generated ANTLR parser is replaced by its validated model ---
+	reg("github.com/nyaruka/goflow/excellent.Parse", func(fr *frame, args []value) value {
+		i := fr.i
+		p := i.prog.ImportedPackage("github.com/nyaruka/goflow/excellent")
+		model := p.Func("VerifParse")
+		if model == nil {
+			panic(unsupported{"excellent.Parse: the generated ANTLR parser is not encoded and the parser model overlay is not loaded"})
+		}
+		res := i.callFn(fr, model, args[0], args[1]).(tuple)
+		if e, ok := res[1].(iface); ok && e.t != nil {
+			if g := p.Var("errVerifNonASCII"); g != nil {
+				if ge, ok := (*i.globals[g]).(iface); ok && ge.t != nil && e.v == ge.v {
+					panic(unsupported{"excellent.Parse: non-ASCII expression is outside the parser model"})
+				}
+			}
+		}
+		return res
+	})
+
 	// ---- environment stubs (class B) ----------------------------------
 	reg("github.com/nyaruka/gocommon/uuids.NewV4", func(fr *frame, args []value) value {
 		fr.i.uuidSeq++
